@@ -137,6 +137,10 @@ func (tx *Transaction) Deserialization(source *common.ZeroCopySource) error {
 	if eof {
 		return errors.New("[Deserialization] read sigs length error")
 	}
+	// every Sig occupies at least 6 bytes (three uint16 fields): never allocate for more entries than the input can hold
+	if l > source.Len()/6 {
+		return fmt.Errorf("[Deserialization] sigs length %d exceeds remaining data", l)
+	}
 	sigs := make([]Sig, l)
 	for i := 0; i < int(l); i++ {
 		var sig Sig
